@@ -65,6 +65,7 @@ MODES = ["regular", "reverse:http://example.com:80", "transparent"]
 HOSTS = [b"example.com", b"other.example:8080"]
 TAGRE = re.compile(rb"s\d+x[0-9a-f]{5}")
 DEBUG = None  # authoring aid: callable(locals of run_case) invoked after each run
+OPEN_PLAN = None  # set by C03's HTTP/2 leg: callable(rng) -> open_plan for the driver (injected connect failures); C05 itself leaves it unset
 
 
 class ForceHttp:
@@ -363,7 +364,7 @@ def run_case(ctx, opts):
     d = sansio.Driver(
         top_factory(mode), client=client, options=opts, rng=r, addons=[force], policy=policy, server_factory=server_factory,
         schedule=r.choice(["random", "random", "random", "fifo"]), snapshot=sansio.http_snapshot, m3=[m3], max_steps=6000,
-        complete_bias=r.choice([0.2, 0.5, 0.8]),
+        complete_bias=r.choice([0.2, 0.5, 0.8]), open_plan=OPEN_PLAN(r) if OPEN_PLAN is not None else None,
     )
     if mode == "transparent":
         d.context.server.address = ("example.com", 80)
